@@ -26,6 +26,7 @@ type Oblig struct {
 
 type Exec struct {
 	w        *World
+	symOpen  map[string]bool // pointee types being unfolded by sym (cycle guard)
 	nextObj  int
 	fresh    int
 	objs     map[int]*Object
